@@ -216,7 +216,7 @@ def gen_cases(rng, tier):
             n = _size(shp)
             if kind in ("act", "float"):     # the double operands of the driver: bit patterns
                 return [f2b(rng.choice(F64) if rng.random() < 0.5 else rng.choice([k for k in range(-60, 61) if k]) * 0.1) for _ in range(n)]
-            if kind == "small": return [rng.choice([-2, -1, 1, 2, 3]) * (1 if n > 6 else 4099) for _ in range(n)]
+            if kind == "small": return [rng.choice([-1, 1]) * rng.choice([4099, 257, 3, 1025]) for _ in range(n)]     # products of <= 4: > 2^24, < 2^50
             if kind == "bool": return [rng.randint(0, 1) * (2 ** 53 + 1) for _ in range(n)]
             if name == "matmul": return [rng.choice([-1, 1]) * (rng.randint(3000, 6000) | 1) for _ in range(n)]
             return [rng.choice([-1, 1]) * rng.choice([2 ** 24 + 1, 2 ** 53 + 1, 2 ** 53 + 3, 2 ** 31 + 1, 9007199254740993, 2 ** 40 + 7]) for _ in range(n)]
